@@ -98,10 +98,14 @@ fn any_vti() -> VerificationTypeInfo {
 		7 => VerificationTypeInfo::Object { cpool_index: x }, _ => VerificationTypeInfo::Unintialized { offset: x },
 	}
 }
+fn two_vti() -> VerificationTypeInfo { if sym::bool() { VerificationTypeInfo::Top {} } else { VerificationTypeInfo::Object { cpool_index: sym::u16() } } }
 fn smt(frame: StackMapFrame) -> AttributeInfo { let mut v = Vec::with_capacity(1); v.push(frame); AttributeInfo::StackMapTable { attribute_name_index: 1, entries: v } }
 
-//# {"id":"c20_stack_map_roundtrip","props":["C20"],"tier":"quick","cap":1500,"lib":"verif","bound":"StackMapTable with one frame of each of the seven kinds (symbolic offsets, chop count 1..=3, append with 1..=3 locals, full frame with one local and one stack item, every verification type with symbolic index): attribute_length, announced length, and read(write(x)) == x consuming all bytes; unwind 16","fns":["AttributeInfo::{_write,_len,_read}","StackMapFrame::{_write,_len,_read}","VerificationTypeInfo::{_write,_len,_read}","pool_has_utf8"]}
-//# {"id":"c20_simple_roundtrip","props":["C20"],"tier":"quick","cap":1500,"lib":"verif","bound":"read(write(x)) == x for EnclosingMethod, NestMembers (2 entries), MethodParameters (1 entry), Exceptions (1 entry) with symbolic field values; unwind 24","fns":["AttributeInfo::{_write,_len,_read}","pool_has_utf8"]}
+//# {"id":"c20_frame_append_1","props":["C20"],"tier":"quick","cap":1200,"bound":"StackMapTable with one AppendFrame of 1 local (Top or Object with symbolic index), symbolic offset: framing, announced length, read(write(x)) == x; unwind 16","fns":["AttributeInfo::{_write,_len,_read}","StackMapFrame::{_write,_len,_read}","VerificationTypeInfo::{_write,_len,_read}","pool_has_utf8"]}
+//# {"id":"c20_frame_append_3","props":["C20"],"tier":"quick","cap":1200,"bound":"... AppendFrame of 3 locals; unwind 16","fns":["StackMapFrame::{_write,_len,_read}"]}
+//# {"id":"c20_frame_chop_full","props":["C20"],"tier":"quick","cap":1200,"bound":"ChopFrame (k symbolic 1..=3) and FullFrame (1 local, 1 stack item), symbolic offsets; unwind 16","fns":["StackMapFrame::{_write,_len,_read}"]}
+//# {"id":"c20_stack_map_roundtrip","props":["C20"],"tier":"thorough","cap":3600,"bound":"StackMapTable with one frame of each of the seven kinds (symbolic offsets, chop count 1..=3, append with 1..=3 locals, full frame with one local and one stack item, every verification type with symbolic index): attribute_length, announced length, and read(write(x)) == x consuming all bytes; unwind 16","fns":["AttributeInfo::{_write,_len,_read}","StackMapFrame::{_write,_len,_read}","VerificationTypeInfo::{_write,_len,_read}","pool_has_utf8"]}
+//# {"id":"c20_simple_roundtrip","props":["C20"],"tier":"quick","cap":1500,"bound":"read(write(x)) == x for EnclosingMethod, NestMembers (2 entries), MethodParameters (1 entry), Exceptions (1 entry) with symbolic field values; unwind 24","fns":["AttributeInfo::{_write,_len,_read}","pool_has_utf8"]}
 //# {"id":"c20_attr_fixed","props":["C20"],"tier":"quick","cap":600,"bound":"the nine fixed-size attributes (ConstantValue, EnclosingMethod, Synthetic, Signature, SourceFile, Deprecated, ModuleMainClass, NestHost) with all u16 field values; unwind 8","fns":["raw_class_file::AttributeInfo::{_write,_len}"]}
 //# {"id":"c20_index_table_0","props":["C20"],"tier":"quick","cap":600,"bound":"Exceptions / ModulePackages / NestMembers / PermittedSubclasses with 0 entries; unwind 8","fns":["AttributeInfo::{_write,_len}"]}
 //# {"id":"c20_index_table_1","props":["C20"],"tier":"quick","cap":600,"bound":"Exceptions / ModulePackages / NestMembers / PermittedSubclasses with 1 entry, all u16 values; unwind 8","fns":["AttributeInfo::{_write,_len}"]}
@@ -134,6 +138,30 @@ proofs! {
 				let mut stack = Vec::with_capacity(1); stack.push(any_vti());
 				roundtrip(smt(StackMapFrame::FullFrame { offset_delta: d16, locals, stack }), b"StackMapTable")
 			},
+		}
+	}
+
+	#[cfg_attr(kani, kani::unwind(16))]
+	fn c20_frame_append_1() {
+		let mut locals = Vec::with_capacity(1);
+		locals.push(two_vti());
+		roundtrip(smt(StackMapFrame::AppendFrame { offset_delta: sym::u16(), locals }), b"StackMapTable");
+	}
+	#[cfg_attr(kani, kani::unwind(16))]
+	fn c20_frame_append_3() {
+		let mut locals = Vec::with_capacity(3);
+		locals.push(two_vti()); locals.push(two_vti()); locals.push(two_vti());
+		roundtrip(smt(StackMapFrame::AppendFrame { offset_delta: sym::u16(), locals }), b"StackMapTable");
+	}
+	#[cfg_attr(kani, kani::unwind(16))]
+	fn c20_frame_chop_full() {
+		let d16 = sym::u16();
+		if sym::bool() {
+			roundtrip(smt(StackMapFrame::ChopFrame { k: sym::u8_in(1, 3), offset_delta: d16 }), b"StackMapTable");
+		} else {
+			let mut locals = Vec::with_capacity(1); locals.push(two_vti());
+			let mut stack = Vec::with_capacity(1); stack.push(two_vti());
+			roundtrip(smt(StackMapFrame::FullFrame { offset_delta: d16, locals, stack }), b"StackMapTable");
 		}
 	}
 
